@@ -443,6 +443,22 @@ def run(ctx):
                 ok = len(fld) == 1 and inits.get(fld[0]) == 1 and not any(w_[1] == fld[0] for w_ in other_writers)
                 det = 'returns self.%s; new() sets it to %s; other writers: %s' % (fld[0] if fld else '?', inits.get(fld[0]) if fld else None, sorted(w_[0] for w_ in other_writers if fld and w_[1] == fld[0]))
             rep.check(r6, ok, '%s::%s_enabled' % (short_, proto), det, '%s:%d' % (g.file, g.line))
+    # what is printed is printed whole: no placeholder of a logger template carries a precision (`{:.15}` cuts the value)
+    r3d = rep.rule('C20-R3d', 'the loggers print every value whole: no format placeholder in ConsoleLogger / LogfmtLogger has a precision (truncation)', floor=2)
+    for logger in ('logger::console::ConsoleLogger', 'logger::logfmt::LogfmtLogger'):
+        cut = []
+        ntpl = 0
+        for fid_, g_ in F.fns.items():
+            if not fid_.startswith(logger) and ('<' + logger) not in fid_:
+                continue
+            for bi_, t_ in g_.calls(r'fmt::Arguments::<.*>::new$'):
+                fm = fmt_of(g_.call_expr(bi_))
+                if fm is None:
+                    continue
+                ntpl += 1
+                if any(len(x) > 2 and x[0] == 'arg' and x[2] == 'prec' for x in fm[0]):
+                    cut.append(g_.loc(bi_))
+        rep.check(r3d, ntpl > 0 and not cut, logger.split('::')[-1] + ':no-truncation', '%d templates, placeholders with a precision at %s' % (ntpl, cut or 'none'), cut[0] if cut else '')
     r4 = rep.rule('C20-R4', 'ClientInfo (the source of every printed address/port) is rewritten by upper layers only on paths that produce a reply', floor=1)
     st = F.fn('proto::stun::repl')
     rep.saw(st)
